@@ -2,6 +2,7 @@
    The harness polls the real futures in the order of the case's schedule and then
    round-robin until every task has finished; the model does the same. *)
 From RM Require Import C12.Model C12.WakeModel C12.DropModel C12.JoinModel C12.FileModel.
+From RM Require Import C12.ProgModel Gen.C12Program.
 
 Definition script := (nat * outcome * nat)%type.     (* suspensions, answer, stats leaf id *)
 Definition dflt : script := (0, ONotFound, 0).
@@ -43,6 +44,32 @@ Definition run_case (ts : list (list key)) (scripts : list script) (nleaf : nat)
      o_req := requested s2; o_proc := processed s2;
      o_stats := stats_list nleaf (stats (sh s2));
      o_rounds := rounds; o_hung := negb (all_done c s2) |}.
+
+(* round 5: modes 0, 5, 6, 7 and 2 run the INTERPRETER of C12/ProgModel.v on the program regenerated from the Rust
+   source (Gen/C12Program.v); C12/Properties.v:c12_source_program_refines_model says it is [run] above, poll for poll.
+   Lookup kinds of the cases: 0 fill_symbol, 1 walk_frame, 2 get_symbol_at_address, 3 get_file_path (a plain
+   delegation to the mock supplier, no slot) followed by fill_symbol. *)
+Definition entry_of (kind : nat) : entry := match kind with 1 => EWalk | 2 => EAddr | _ => EFill end.
+
+Fixpoint pdrain (pc : pconfig) (fuel : nat) (s : pstate) (rounds : nat) : pstate * nat :=
+  if pall_done pc s then (s, rounds)
+  else match fuel with
+       | O => (s, rounds)
+       | S f => pdrain pc f (prun_from src_program pc s (seq 0 (length (ptasks pc)))) (S rounds)
+       end.
+
+Definition run_pcase (ts : list (list (nat * nat))) (scripts : list script) (nleaf : nat) (sched : list task) : c12_out :=
+  let pc := {| ptasks := map (map (fun p => (entry_of (snd p), fst p))) ts; pbase := mk_config [] scripts |} in
+  let n := length (ptasks pc) in
+  let s1 := prun src_program pc sched in
+  let '(s2, rounds) := pdrain pc (2 * S (work (cfg pc))) s1 0 in
+  {| o_mid_req := req (psh s1); o_mid_proc := proc (psh s1);
+     o_mid_done := length (filter (ptask_done s1) (seq 0 n));
+     o_log := calls (psh s2);
+     o_results := map (fun t => results (psh s2) t) (seq 0 n);
+     o_req := req (psh s2); o_proc := proc (psh s2);
+     o_stats := stats_list nleaf (stats (psh s2));
+     o_rounds := rounds; o_hung := negb (pall_done pc s2) |}.
 
 (* mode 1: wake-driven executor (the picks choose among the runnable tasks) *)
 Record c12_wout := {
@@ -106,6 +133,22 @@ Definition run_fcase (ts : list (list (nat * nat))) (fscripts : list fscript) : 
      w_log := calls (sh s2);
      w_results := map (fun t => results (sh s2) t) (seq 0 (ntasks c));
      w_req := requested s2; w_proc := processed s2;
+     w_stats := [] |}.
+
+Definition run_pfcase (ts : list (list (nat * nat))) (fscripts : list fscript) : c12_wout :=
+  let fc := {| ftasks := map (map (fun p => (fst p, fkind_of (snd p)))) ts;
+               local_hit := fun _ => false;
+               has_lookup := fun fk => fst (fst (nth (enc fk) fscripts (false, 0, false)));
+               servers := [fun fk => (snd (fst (nth (enc fk) fscripts (false, 0, false))),
+                                      snd (nth (enc fk) fscripts (false, 0, false)))] |} in
+  let pc := {| ptasks := map (map (fun fk => (EFile, enc fk))) (ftasks fc); pbase := to_config fc |} in
+  let '(s2, rounds) := pdrain pc (2 * S (work (cfg pc))) (pinit pc) 0 in
+  {| w_trace := [rounds];
+     w_lost := false;
+     w_fuel := negb (pall_done pc s2);
+     w_log := calls (psh s2);
+     w_results := map (fun t => results (psh s2) t) (seq 0 (length (ptasks pc)));
+     w_req := req (psh s2); w_proc := proc (psh s2);
      w_stats := [] |}.
 
 (* glue for the OCaml driver (decimal text <-> nat goes through Coq's Z; see ocaml/zconv.ml) *)
